@@ -268,7 +268,7 @@ def k_gen(ctx, jinja2):
 
 def sig_for(src, outcome=""):
     """signature used to match recorded known findings — specific failure classes only"""
-    if "\ufb01" in src and "fi" in src:
+    if _nfkc_collision(src) and outcome == "bad":
         return "C01:nfkc-colliding-identifiers-in-one-parameter-or-keyword-list"
     return None
 
@@ -400,6 +400,17 @@ def _work(chunk):
     return len(chunk), out
 
 
+def _nfkc_collision(src):
+    """two different identifiers of the source have the same NFKC form (the class of the recorded finding)"""
+    import unicodedata
+    seen = {}
+    for w in re.findall(r"\w+", src):
+        n = unicodedata.normalize("NFKC", w)
+        if seen.setdefault(n, w) != w:
+            return True
+    return False
+
+
 def classify(src, what):
     if "RecursionError" in what:
         return "C01:nesting-depth-recursion-limit"
@@ -411,7 +422,7 @@ def classify(src, what):
         return "C01:integer-constant-beyond-int-str-digit-limit"
     if "did not finish" in what and re.search(r"\d+\s*\*\*\s*\d+", src):
         return "C01:constant-folding-materialises-a-huge-sequence"
-    if ("duplicate argument" in what or "keyword argument repeated" in what) and "\ufb01" in src:
+    if "duplicate argument" in what and _nfkc_collision(src):
         return "C01:nfkc-colliding-identifiers-in-one-parameter-or-keyword-list"
     return None
 
@@ -571,7 +582,9 @@ def oracle(ctx):
     # (viii) calls and call blocks whose keywords are names the code generator passes itself, in every
     # frame kind (top level, loop body, loop else, block, macro, with, filter block, call block body)
     RES = ["caller", "_loop_vars", "_block_vars", "kwargs", "varargs", "loop", "self", "context", "environment",
-           "missing", "resolve", "undefined", "concat", "class", "__debug__", "None", "a"]
+           "missing", "resolve", "undefined", "concat", "class", "__debug__", "None", "a",
+           # spellings Python's identifier normalisation (NFKC) maps onto another name of the list
+           "\uff43aller", "__\uff44ebug__", "\ufb01", "\u00aa", "\uff43lass", "_loop_\uff56ars", "fi"]
     WRAP = ["%s", "{%% for i in y %%}%s{%% endfor %%}", "{%% for i in y %%}{%% else %%}%s{%% endfor %%}",
             "{%% block b %%}%s{%% endblock %%}", "{%% macro m() %%}%s{%% endmacro %%}", "{%% with q=1 %%}%s{%% endwith %%}",
             "{%% for i in y %%}{%% if i %%}%s{%% endif %%}{%% endfor %%}", "{%% block b %%}{%% for i in y recursive %%}%s{%% endfor %%}{%% endblock %%}",
@@ -580,7 +593,7 @@ def oracle(ctx):
     n_res = 0
     for w in WRAP:
         for k1 in RES:
-            for k2 in RES[:4] + [None]:
+            for k2 in RES[:4] + ["fi", "a", None]:
                 kws = f"{k1}=1" + (f", {k2}=2" if k2 else "")
                 for inner in ("{{ f(%s) }}" % kws, "{%% call f(%s) %%}{%% endcall %%}" % kws, "{{ x|f(%s) }}" % kws,
                               "{%% call(%s) f() %%}{%% endcall %%}" % kws, "{%% if x is f(%s) %%}{%% endif %%}" % kws):
